@@ -200,6 +200,7 @@ func (ix *PkgIndex) FG(f *FuncInfo) *FG {
 // Func returns the declaration with the given name or nil.
 func (ix *PkgIndex) Func(name string) *FuncInfo {
 	if f, ok := ix.Funcs[name]; ok {
+		recordFunc(ix.Pkg, name, f)
 		return f
 	}
 	return lookupFunc(ix.M, ix.Pkg, name)
